@@ -26,6 +26,28 @@ CHECKS = {
 }
 
 CHECKS.update({
+ "C06": dict(engine="E1 enum + E2 bfs", sec="4/C06", technique="bounded-exhaustive enumeration of single operations plus explicit-state closure over all operation sequences on tiny pages, against a Vec<bool> grid model",
+   text="For every size of an exhaustive box (incl. 0 and heights not a multiple of 8), the real sign sizes and 33x33, and 5 kinds of start page (new; borrowed bytes with non-standard header/padding and 00/FF/fill data; owned bytes): every in-bounds set/clear, set_all true/false and every listed out-of-bounds coordinate (incl. y inside the column's last byte) is executed on the real Page and judged on exactly the observables the statement lists. All sequences of operations are covered by a breadth-first closure to the fixed point (all 2^n pixel states) on tiny pages in lock-step with a boolean grid.",
+   note="Header bytes 1..3 and unused high bits are recorded, not judged; closure only on pages up to 18 pixels."),
+ "C07": dict(engine="E1 enum", sec="4/C07", technique=E1,
+   text="For every (id,width,height) of the boxes and the real/large sizes: Page::new bytes against the layout formula; every pixel set/read/cleared on a blank page must change exactly bit y%8 of byte 4+x*ceil(h/8)+y/8 (so the pixel-to-bit map is checked injective pixel by pixel); from_bytes for every candidate length around the padded size and over the page's own bytes, owned and borrowed.",
+   note="Trusts the statement's formula as coded in refmodel.rs; large sizes visit boundary pixels only in the quick tier."),
+ "C15": dict(engine="E3 tree + E4 devices", sec="4/C15", technique="exhaustive enumeration of environment answer scripts (fragment sizes, interrupts, zero/short transfers, hard errors at every call index) against the real Frame::read/write",
+   text="The real Frame::read and Frame::write run against a scripted stream whose every call is answered from a finite script: every composition of short streams into delivery sizes, every subset of interrupted calls among the first m calls, a hard error of 4 kinds and a premature Ok(0) at every call index, <=2 interrupts combined with a terminal fault anywhere on longer streams; likewise for the sink. After every read the stream position must be exactly the end of the first line and the result must equal the reference decoding of that line; writes must deliver exactly the encoding or fail with an I/O error and stop.",
+   note="Streams are a fixed list of 14 (1-3 frames, invalid lines, trailing bytes, 255-byte frame); scripts enumerated exhaustively within the stated lengths."),
+ "C16": dict(engine="E3 tree + E4 devices", sec="4/C16", technique="exhaustive enumeration of (message, reply line, fault position) against the real SerialSignBus on a scripted port",
+   text="Every message of a 75-message list (all kinds, boundary parameters, unknown frames that share the type byte of reply-expecting messages) x every reply line (all 13 reports, 6 acks, other kinds, 8 malformed shapes, empty, timeout) followed by a sentinel line, plus a fault at every write and read call index, is sent through one real SerialSignBus; bytes written, read calls, input position and the returned value are judged against the reference encoder/decoder/table.",
+   note="Needs the sleep seam only to avoid real waiting; reply alphabet finite and listed."),
+ "C18": dict(engine="E3 tree + real clock", sec="4/C18", technique="exhaustive enumeration of ordered message pairs x reply kinds on a virtual clock; candidates confirmed on the real clock; real-clock pass over all kinds",
+   text="Every ordered pair of 47 message kinds x every reply kind is run through one real SerialSignBus with pauses captured by the sleep seam; the event log must show >= 30 ms of pause between a data chunk's last port write and the next message's first port write, >= 100 ms between reading an in-progress report and returning, and < 30 ms otherwise. A candidate violation is reported only if a real-clock measurement agrees (so a bypassed seam cannot raise an alarm); a real-clock pass measures every kind once (lower bounds; minimum over 5 repetitions for unpaced exchanges).",
+   note="Time itself is measured, not enumerated; trusts the two-line seam, cross-checked by the real-clock pass."),
+ "C19": dict(engine="E1 enum", sec="4/C19", technique=E1,
+   text="All 11 types (block fields vs dimensions; a real VirtualSign configured with the block stores exactly a page of the type's size and rejects neighbouring sizes), all 65536 (family,id) pairs with the other 14 bytes varied, every length 0..=40, and every single-byte variation of every real block are decoded and compared with a literal table.",
+   note="Trusts the literal table SIGN_TYPES."),
+ "C20": dict(engine="E3 tree + E4 devices", sec="4/C20", technique="exhaustive product of prior port settings x constructors x a fault at each configuration call, on a scripted SerialDevice",
+   text="14 prior baud values x 4 char sizes x 3 parities x 2 stop bits x 3 flow controls x 3 prior timeouts x {SerialSignBus::try_new, Odk::try_new, configure_port with 4 timeouts} x {no fault, or each of 4 configuration calls failing with 3 error kinds} = 236k constructions on a scripted device that records every call; resulting line settings, timeout, call order and error propagation are judged.",
+   note="Trusts serial-core's blanket reconfigure; the settings type is the harness's own so every call can be made to fail."),
+
  "C12": dict(engine="E2 bfs", sec="4/C12", technique=E2 + "; plus directed exhaustive sweeps of configuration fields and 70000-step counter chains",
    text="Breadth-first search over the real VirtualSign (state key = the real struct) to a fixed point under stated size bounds, offering every message of alphabets R1 (every chunk length 0..=255 at offset 0 and 16, all control messages for own and foreign address, counts below/equal/above, valid/invalid/zero/overflowing configuration blocks), R2 (coloured chunks, two page sizes) and R3 (each of the 11 real sign types) in every reachable state, for both flip styles, plus a two-sign bus; plus every configuration block of a 230k-block field sweep and three 70000-repetition counter chains. Oracle: no transition unwinds and a count message ends a transfer in received/failed. All reachable states under the bounds are covered, which is what 'never panics whatever is sent' needs.",
    note="Bounds on buffered bytes / counted chunks / stored pages per run are in the evidence; data values are uniform fills and three colours; shadow automaton used only for bounds."),
